@@ -1,5 +1,6 @@
 import FormulaeModel.Model.NA
 import FormulaeModel.Spec.C04
+import FormulaeModel.Spec.C02
 /-
 C09 — reading of the statement.
 
@@ -36,8 +37,40 @@ def freeVarsArgs : Args → List String
   | .more e _ rest => freeVars e ++ freeVarsArgs rest
 end
 
+/-- every atom at a term position of the formula, with the variables it mentions -/
+def atomVarTable : Expr → List (Terms.Atom × List String)
+  | .grouping _ e _ => atomVarTable e
+  | .binary l _ r => atomVarTable l ++ atomVarTable r
+  | .unary _ r => atomVarTable r
+  | e =>
+    let a := match e with
+      | .subset n _ _ _ => some (Terms.Atom.var (.str n.lexeme) none)
+      | _ => Spec.C02.atomOf e
+    match a with
+    | some a => [(a, freeVars e)]
+    | none => []
+
+def atomFree (table : List (Terms.Atom × List String)) (a : Terms.Atom) : List String :=
+  match table.find? (fun p => p.1.name == a.name) with
+  | some p => p.2
+  | none => []
+
+/-- **The variables a formula uses**: those mentioned by the terms of its *denotation* (response,
+common terms, effect and grouping side of group-specific terms) — a variable all of whose terms
+are removed again (`y ~ a + x - x`) is not used, its missing values are ignored.  Outside the
+documented language (`den e = none`) every variable written in the formula counts. -/
+def usedVars (e : Expr) : List String :=
+  match Spec.C02.den e with
+  | some d =>
+    let table := atomVarTable e
+    (match d.resp with | some a => atomFree table a | none => []) ++
+    d.common.flatMap (fun t => t.flatMap (atomFree table)) ++
+    d.group.flatMap (fun g => (match g.eff with | some t => t.flatMap (atomFree table) | none => []) ++
+      g.fac.flatMap (atomFree table))
+  | none => freeVars e
+
 def usedColumns (e : Expr) (f : Frame) : List String :=
-  (f.map (·.name)).filter (fun c => (freeVars e).contains c)
+  (f.map (·.name)).filter (fun c => (usedVars e).contains c)
 
 /-- rows that have no missing value in any used column -/
 def completeRows (e : Expr) (f : Frame) : List Bool :=
